@@ -80,4 +80,88 @@ theorem mem_kill_edges (w : World α) (o : Nat) (e : Edge) :
     e ∈ (w.kill o).edges ↔ e ∈ w.edges ∧ e.src.1 ≠ o ∧ e.dst.1 ≠ o := by
   simp [World.kill, List.mem_filter]
 
+/-! ### Depth two, for the recursion itself -/
+
+variable {π : Type}
+
+/-- A loop all of whose partners are locked does nothing, whatever the nested call is. -/
+theorem foldl_all_locked {rec : World α → Pair → π → Except Exc (World α × Option α)} {y : π}
+    (ps : List Pair) (acc : World α) (h : ∀ t ∈ ps, t ∈ acc.locked) :
+    ps.foldl (visitPartner rec y) acc = acc := by
+  induction ps with
+  | nil => rfl
+  | cons t ts ih =>
+    simp only [List.foldl_cons]
+    have : visitPartner rec y acc t = acc := by
+      unfold visitPartner; rw [if_pos (h t (by simp))]
+    rw [this]
+    exact ih (fun t' ht' => h t' (by simp [ht']))
+
+/-- Two loops agree if their nested calls agree on every state the loop can be in. -/
+theorem foldl_congr_inv {rec rec' : World α → Pair → π → Except Exc (World α × Option α)} {y : π}
+    (Inv : World α → Prop) (ps : List Pair)
+    (hrec : ∀ acc q, Inv acc → q ∈ ps → q ∉ acc.locked → rec acc q y = rec' acc q y)
+    (hinv : ∀ acc q acc' r, Inv acc → q ∈ ps → q ∉ acc.locked → rec acc q y = .ok (acc', r) → Inv acc')
+    (acc : World α) (hacc : Inv acc) :
+    ps.foldl (visitPartner rec y) acc = ps.foldl (visitPartner rec' y) acc := by
+  induction ps generalizing acc with
+  | nil => rfl
+  | cons q qs ih =>
+    simp only [List.foldl_cons]
+    have hstep : visitPartner rec y acc q = visitPartner rec' y acc q := by
+      unfold visitPartner
+      split
+      · rfl
+      · rename_i hq; rw [hrec acc q hacc (by simp) hq]
+    rw [← hstep]
+    apply ih (fun acc q' hi hm hl => hrec acc q' hi (by simp [hm]) hl)
+      (fun acc q' acc' r hi hm hl h => hinv acc q' acc' r hi (by simp [hm]) hl h)
+    unfold visitPartner
+    split
+    · exact hacc
+    · rename_i hq
+      split
+      · rename_i acc' r h; exact hinv acc q acc' r hacc (by simp) hq h
+      · exact hacc
+
+/-- **Depth ≤ 2.** For a trait whose partners have no partner but itself, a
+propagation started from empty lock tables never nests deeper than two calls:
+every budget ≥ 2 gives the result of budget 2. -/
+theorem cascade_hub_depth {apply : World α → Pair → π → Except Exc (World α × Option α × Option π)}
+    (hl : Local apply) (w : World α) (p : Pair) (x : π) (d : Nat) (hL : w.locked = [])
+    (hback : ∀ q ∈ w.partners p, ∀ t ∈ w.partners q, t = p) :
+    cascade apply (d + 2) w p x = cascade apply 2 w p x := by
+  rw [cascade_succ, cascade_succ (d := 1)]
+  split
+  · rfl
+  · rfl
+  · rename_i w1 r1 y happ
+    have h1 : SameTabs w w1 := ⟨hl.edges happ, hl.locked happ, hl.hooked happ⟩
+    split
+    · rfl
+    · congr 3
+      apply foldl_congr_inv (fun acc => acc.edges = w.edges ∧ acc.locked = [p]) (w1.partners p)
+      · -- the nested call on a partner: its own loop finds only `p`, which is locked
+        intro acc q ⟨hae, hal⟩ hq _
+        rw [partners_congr h1.1] at hq
+        rw [cascade_succ, cascade_succ (d := 0)]
+        split
+        · rfl
+        · rfl
+        · rename_i w2 r2 y2 happ2
+          have h2e : w2.edges = w.edges := by rw [hl.edges happ2]; exact hae
+          have h2l : w2.locked = [p] := by rw [hl.locked happ2]; exact hal
+          split
+          · rfl
+          · have hall : ∀ t ∈ w2.partners q, t ∈ (w2.lock q).locked := by
+              intro t ht
+              rw [partners_congr (w := w) (w' := w2) h2e] at ht
+              rw [hback q hq t ht]
+              simp [World.lock, h2l]
+            rw [foldl_all_locked _ _ hall, foldl_all_locked _ _ hall]
+      · intro acc q acc' r ⟨hae, hal⟩ _ hql hc
+        have := cascade_frame hl _ acc q y acc' r hql hc
+        exact ⟨by rw [this.1]; exact hae, by rw [this.2.1]; exact hal⟩
+      · exact ⟨by simp [World.lock, h1.1], by simp [World.lock, h1.2.1, hL]⟩
+
 end TraitsVerif.Model.Sync
